@@ -9,6 +9,9 @@ import (
 	"github.com/cosmos72/gomacro/gls"
 )
 
+// SelectAborted is the panic value raised inside an interpreted select when the execution is aborted at its scheduling point.
+type SelectAborted struct{}
+
 // Callbacks are the scenario-level observers of the gomacro hooks (all optional).
 type Callbacks struct {
 	GoID    func(s *S, tid int, real uintptr) uintptr
@@ -16,8 +19,14 @@ type Callbacks struct {
 	Access  func(s *S, tid int, g *fast.IrGlobals, write, locked bool)
 	Select  func(s *S, tid int, cases []r.SelectCase) []r.SelectCase
 	FreeEnv func(env *fast.Env)
+	// Alloc observes every frame taken from a pool (function body or nested block)
+	Alloc func(s *S, tid int, env *fast.Env, run *fast.Run, runGoid uintptr)
 	// LockPoints: make spin-lock acquisition a scheduling point
 	LockPoints bool
+	// AllocPoints: make every frame allocation a scheduling point (after the Alloc callback)
+	AllocPoints bool
+	// SelectPoints: make the moment between filling the cases of a select and executing it a scheduling point
+	SelectPoints bool
 }
 
 var (
@@ -58,10 +67,25 @@ func Install(c Callbacks) {
 	fast.VerifHooks.Select = func(cases []r.SelectCase) []r.SelectCase {
 		if s := Current(); s != nil && cb.Select != nil {
 			if t := s.self(); t != nil {
+				if cb.SelectPoints && !s.PointOK(Op{Kind: "in-select"}) {
+					panic(SelectAborted{})
+				}
 				return cb.Select(s, t.id, cases)
 			}
 		}
 		return cases
+	}
+	fast.VerifHooks.Alloc = func(env *fast.Env, run *fast.Run, runGoid uintptr) {
+		if s := Current(); s != nil && (cb.Alloc != nil || cb.AllocPoints) {
+			if t := s.self(); t != nil {
+				if cb.Alloc != nil {
+					cb.Alloc(s, t.id, env, run, runGoid)
+				}
+				if cb.AllocPoints {
+					s.Point(Op{Kind: "alloc"})
+				}
+			}
+		}
 	}
 	fast.VerifHooks.FreeEnv = cb.FreeEnv
 	fast.VerifHooks.Spawn = func() {
